@@ -320,6 +320,39 @@ func cmdVerify(args []string) int {
 	}
 	wg.Wait()
 
+	// second chance: an obligation left undecided may only have been starved (a loaded
+	// machine, 40-odd solver processes on 16 cores). It is decided again with four times the
+	// timeout and little parallelism before anything is reported; only what is still
+	// undecided then counts as failed.
+	{
+		var again []*oblOutcome
+		for _, oc := range outcomes {
+			if !oc.Obl.Cover && oc.KF == nil && oc.Res != nil && oc.Res.Status == "unknown" {
+				again = append(again, oc)
+			}
+		}
+		if len(again) > 0 && len(again) <= 40 {
+			var wg2 sync.WaitGroup
+			sem2 := make(chan struct{}, 4)
+			for i, oc := range again {
+				i, oc := i, oc
+				wg2.Add(1)
+				sem2 <- struct{}{}
+				go func() {
+					defer wg2.Done()
+					defer func() { <-sem2 }()
+					q := buildQuery(oc.Script, oc.Obl, true)
+					file := filepath.Join(workDir, fmt.Sprintf("retry_%04d_%s.smt2", i, sanitize(oc.Obl.Name)))
+					r := solve(q, file, timeout*4, *seed, thorough)
+					r.Tried = append(append([]string{}, oc.Res.Tried...), r.Tried...)
+					r.Millis += oc.Res.Millis
+					oc.Res = r
+				}()
+			}
+			wg2.Wait()
+		}
+	}
+
 	// verdict
 	violations := 0
 	var lines []string
